@@ -59,9 +59,13 @@ def setup(engine):
     from vf.stubs import binio
     binio.selftest()
     _selftest_pool()
+    _selftest_assoc()
     if engine == "chx":
         from vf.stubs.common import text_stubs
         text_stubs()
+        import srctools.tokenizer as tk
+        import srctools.vmt as vmt
+        vmt.BARE_DISALLOWED = tk.BARE_DISALLOWED        # vmt imported the frozenset by value; text_stubs() made it a tuple
         binio.enable_symbolic()
         import srctools.cmdseq as cs
         cs.ST_COMMAND = binio.ModelStruct(cs.ST_COMMAND.format)
@@ -487,6 +491,349 @@ def h_bvcd(s: str, active: bool, chan_active: bool, ignore_ph: bool, has_tag: bo
 def h_bvcd_witness(s: str, active: bool, chan_active: bool, ignore_ph: bool, has_tag: bool, has_dir: bool, trk_active: bool,
                    comb: bool, gender: bool, supp: bool, etype: int, cap: int, n: int, flag_i: int = 0, mode: str = "kinds") -> None:
     h_bvcd(s, active, chan_active, ignore_ph, has_tag, has_dir, trk_active, comb, gender, supp, etype, cap, n, flag_i, mode)
+    raise Fail("reached")
+
+
+# ------------------------------------------------------------------------------------------------------------
+# text formats: shared helpers
+# ------------------------------------------------------------------------------------------------------------
+
+class AssocDict:
+    """dict stand-in for mappings the real code keys by a *symbolic* str (`Material._params`, `Mesh.bones`): an insertion-ordered
+    association list searched by ==.  For str keys this is dict semantics (hash is only an accelerator); compared with a real
+    dict on every worker start (_selftest_assoc)."""
+    def __init__(self, pairs=()):
+        self._k = []
+        self._v = []
+        for k, v in (pairs.items() if hasattr(pairs, "items") else pairs):
+            self[k] = v
+
+    def _find(self, q):
+        for i in range(len(self._k)):
+            if self._k[i] == q:
+                return i
+        return -1
+
+    def __getitem__(self, q):
+        i = self._find(q)
+        if i < 0:
+            raise KeyError(q)
+        return self._v[i]
+
+    def __setitem__(self, q, v):
+        i = self._find(q)
+        if i < 0:
+            self._k.append(q)
+            self._v.append(v)
+        else:
+            self._v[i] = v
+
+    def __delitem__(self, q):
+        i = self._find(q)
+        if i < 0:
+            raise KeyError(q)
+        del self._k[i]
+        del self._v[i]
+
+    def __contains__(self, q):
+        return self._find(q) >= 0
+
+    def __iter__(self):
+        return iter(list(self._k))
+
+    def __len__(self):
+        return len(self._k)
+
+    def keys(self):
+        return list(self._k)
+
+    def values(self):
+        return list(self._v)
+
+    def items(self):
+        return list(zip(self._k, self._v))
+
+
+def _selftest_assoc():
+    ops = [("set", "a", 1), ("set", "B", 2), ("set", "a", 3), ("get", "a", 0), ("get", "x", 0), ("del", "B", 0), ("del", "q", 0),
+           ("set", "", 4), ("in", "", 0), ("in", "b", 0), ("set", "B", 5)]
+    d, m = {}, AssocDict()
+    for op, k, v in ops:
+        res = []
+        for obj in (d, m):
+            try:
+                if op == "set":
+                    obj[k] = v
+                    res.append(None)
+                elif op == "get":
+                    res.append(obj[k])
+                elif op == "del":
+                    del obj[k]
+                    res.append(None)
+                else:
+                    res.append(k in obj)
+            except KeyError:
+                res.append(KeyError)
+        if res[0] != res[1] or list(d) != list(m) or list(d.values()) != m.values() or list(d.items()) != m.items() or len(d) != len(m):
+            print("AssocDict differs from dict", op, k)
+            raise SystemExit(2)
+
+
+def _slot(sym, n, const):
+    """A string slot: the symbolic argument at exact length n, or (n == -1) the constant; the unused symbolic argument is pinned
+    to '' so that it does not multiply paths."""
+    if n < 0:
+        assume(len(sym) == 0)
+        return const
+    assume(len(sym) == n)
+    return sym
+
+
+def _none_of(s, chars):
+    """No character of s is one of `chars` (one solver term per character, no fork)."""
+    for c in chars:
+        o = ord(c)
+        assume(all([ord(ch) != o for ch in s]))
+
+
+ESCAPED_CHARS = '\t\x0b\x08\r\x0c\x07\\\'"\n'
+
+
+def has_escapable(s):
+    """True when escape_text() would alter s (used by known-finding regions: text written through Keyvalues.serialise into a
+    file that is read without escape processing)."""
+    for ch in s:
+        for c in ESCAPED_CHARS:
+            if ch == c:
+                return True
+    return False
+
+
+def _str_eq(got, want, what):
+    check(isinstance(got, str), "str expected: " + what)
+    check(len(got) == len(want), "string length: " + what, len(got), len(want))
+    check(got == want, "string differs: " + what, got, want)
+
+
+def _kv_eq(got, want, path):
+    """Keyvalues trees equal: real names, leaf values, child order."""
+    _str_eq(got.real_name, want.real_name, path + ".name")
+    check(got.has_children() == want.has_children(), "leaf/block kind at " + path)
+    if want.has_children():
+        g, w = list(got), list(want)
+        check(len(g) == len(w), "child count at " + path, len(g), len(w))
+        for i in range(len(w)):
+            _kv_eq(g[i], w[i], f"{path}[{i}]")
+    else:
+        _str_eq(got.value, want.value, path + ".value")
+
+
+def _same_pieces(p1, p2, what):
+    """Second-generation output identical, compared write by write (no concatenation of symbolic text)."""
+    check(len(p1) == len(p2), what + ": number of writes differs", len(p1), len(p2))
+    for i in range(len(p1)):
+        check(len(p1[i]) == len(p2[i]), what + ": second generation output differs (length)", i, p1[i], p2[i])
+        check(p1[i] == p2[i], what + ": second generation output differs", i, p1[i], p2[i])
+
+
+# ------------------------------------------------------------------------------------------------------------
+# soundscripts
+# ------------------------------------------------------------------------------------------------------------
+
+def _snd_tables():
+    import srctools.sndscript as ss
+    L, P, V = ss.Level, ss.Pitch, ss.VOL_NORM
+    levels = [(m, m) for m in L] + [(L.SNDLVL_20dB, L.SNDLVL_180dB), (75.0, 75.0), (0.5, L.SNDLVL_IDLE), (60.0, 80.5), (L.SNDLVL_NONE, 0.0)]
+    levels.insert(0, levels.pop(levels.index((L.SNDLVL_NORM, L.SNDLVL_NORM))))
+    vols = [(V, V), (1.0, 1.0), (0.5, 0.5), (0.25, 0.75), (V, 0.5), (1.0, V), (0.0, 0.0)]
+    pitches = [(P.PITCH_NORM, P.PITCH_NORM), (100.0, 100.0), (P.PITCH_LOW, P.PITCH_HIGH), (95.0, 95.0), (90.0, 110.5), (P.PITCH_HIGH, 120.0),
+               (100.0, P.PITCH_HIGH), (255.0, 1.0)]
+    chans = list(ss.Channel) + [0, 7, 136, -1]
+    return levels, vols, pitches, chans
+
+
+SND_WAVS = [")weapons/fire1.wav", "*#vo/npc/line 02.wav", "common/null.wav"]
+
+
+def _stack(sval, key="input2"):
+    from srctools.keyvalues import Keyvalues
+    return Keyvalues("", [Keyvalues("import_stack", "CS_update_start"),
+                          Keyvalues("mixer", [Keyvalues("mixgroup", "Weapons"), Keyvalues(key, sval)])])
+
+
+def _snd_pair_eq(got, want, what):
+    import enum
+    for i in (0, 1):
+        g, w = got[i], want[i]
+        if isinstance(w, enum.Enum) and not isinstance(w, float):
+            check(g is w, what + ": enum member", i, g, w)
+        else:
+            check(not (isinstance(g, enum.Enum) and not isinstance(g, float)), what + ": number became a constant", i, g, w)
+            check(g == w, what, i, g, w)
+
+
+def h_snd(name: str, wav: str, sval: str, force_v2: bool, st_start: bool, st_update: bool, st_stop: bool,
+          chan_i: int, lvl_i: int, vol_i: int, pit_i: int,
+          n_name: int, n_wav: int, n_sval: int, nwav: int = 1, dim: str = "", esc: int = 0, stacks: int = 0) -> None:
+    """Sound.export -> Keyvalues.parse(allow_escapes=esc; 0 is what srctools.packlist and the engine use for soundscript files)
+    -> Sound.parse / parse_one gives an equal Sound, and exporting that again writes the same text.  Two sounds per file; the
+    first has symbolic name / wave / operator-stack leaf (exact lengths; n == -1: constant), channel / level / volume / pitch by
+    symbolic index along ONE dimension (`dim`), 0-3 waves, force_v2 and the three operator stacks symbolic when stacks=1."""
+    import srctools.sndscript as ss
+    from srctools.keyvalues import Keyvalues
+    levels, vols, pitches, chans = _snd_tables()
+    the_name = _slot(name, n_name, "Weapon.Fire")
+    the_wav = _slot(wav, n_wav, SND_WAVS[0])
+    the_sval = _slot(sval, n_sval, "0.35")
+    # representable domain: the name and the waves are written raw between quotes
+    _none_of(the_name, '"\n\r') if n_name >= 0 else None
+    _none_of(the_wav, '"\r') if n_wav >= 0 else None
+    if esc:   # an escape-processing reader: a raw backslash is not literal
+        _none_of(the_name, '\\') if n_name >= 0 else None
+        _none_of(the_wav, '\\') if n_wav >= 0 else None
+    assume(0 <= chan_i < len(chans) and 0 <= lvl_i < len(levels) and 0 <= vol_i < len(vols) and 0 <= pit_i < len(pitches))
+    assume(dim == "chan" or chan_i == 0)
+    assume(dim == "level" or lvl_i == 0)
+    assume(dim == "volume" or vol_i == 0)
+    assume(dim == "pitch" or pit_i == 0)
+    if not stacks:
+        assume(not force_v2 and not st_start and not st_update and not st_stop)
+    if not (st_start or st_update or st_stop):
+        assume(n_sval < 0)
+    snd = ss.Sound(the_name, [the_wav, SND_WAVS[1], SND_WAVS[2]][:nwav], volume=pick(vols, vol_i), channel=pick(chans, chan_i),
+                   level=pick(levels, lvl_i), pitch=pick(pitches, pit_i),
+                   stack_start=_stack(the_sval, "input1") if st_start else None,
+                   stack_update=_stack(the_sval) if st_update else None,
+                   stack_stop=_stack("1", "x y") if st_stop else None, force_v2=force_v2)
+    other = ss.Sound("Other.Sound", ["a.wav", "b.wav"], volume=0.5, level=ss.Level.SNDLVL_IDLE, pitch=(90.0, 110.0))
+    origs = [snd, other]
+    sink = ChunkSink()
+    for s in origs:
+        s.export(sink)
+    try:
+        tree = Keyvalues.parse(sink.parts, allow_escapes=bool(esc))
+    except Exception as e:
+        raise Fail(f"exported soundscript does not parse: {type(e).__name__}: {e}")
+    kvs = list(tree)
+    check(len(kvs) == 2, "number of sounds in the file", len(kvs))
+    if n_name < 0:
+        table = ss.Sound.parse(tree)
+        check(list(table) == ["weapon.fire", "other.sound"], "Sound.parse keys", list(table))
+        gots = list(table.values())
+    else:
+        gots = [ss.Sound.parse_one(k) for k in kvs]
+    for got, want in zip(gots, origs):
+        _str_eq(got.name, want.name, "sound name")
+        check(len(got.sounds) == len(want.sounds), "wave count", len(got.sounds), len(want.sounds))
+        for i in range(len(want.sounds)):
+            _str_eq(got.sounds[i], want.sounds[i], f"wave {i}")
+        check(type(got.channel) is type(want.channel) and got.channel == want.channel, "channel", got.channel, want.channel)
+        _snd_pair_eq(got.level, want.level, "level")
+        _snd_pair_eq(got.volume, want.volume, "volume")
+        _snd_pair_eq(got.pitch, want.pitch, "pitch")
+        v2 = bool(want.force_v2 or want.stack_start or want.stack_update or want.stack_stop)
+        check(got.force_v2 is v2, "soundentry version", got.force_v2, v2)
+        for attr in ("stack_start", "stack_update", "stack_stop"):
+            g, w = list(getattr(got, attr)), list(getattr(want, attr))
+            check(len(g) == len(w), attr + " size", len(g), len(w))
+            for i in range(len(w)):
+                _kv_eq(g[i], w[i], f"{attr}[{i}]")
+    sink2 = ChunkSink()
+    for s in gots:
+        s.export(sink2)
+    _same_pieces(sink.parts, sink2.parts, "soundscript")
+
+
+def h_snd_witness(name: str, wav: str, sval: str, force_v2: bool, st_start: bool, st_update: bool, st_stop: bool,
+                  chan_i: int, lvl_i: int, vol_i: int, pit_i: int,
+                  n_name: int, n_wav: int, n_sval: int, nwav: int = 1, dim: str = "", esc: int = 0, stacks: int = 0) -> None:
+    h_snd(name, wav, sval, force_v2, st_start, st_update, st_stop, chan_i, lvl_i, vol_i, pit_i, n_name, n_wav, n_sval, nwav, dim, esc, stacks)
+    raise Fail("reached")
+
+
+# ------------------------------------------------------------------------------------------------------------
+# VMT materials
+# ------------------------------------------------------------------------------------------------------------
+
+def _material_class():
+    """Material whose parameter table is an AssocDict while symbolic (the real dict hashes the folded name); the real
+    __init__/__setitem__/parse/export run unchanged."""
+    import srctools.vmt as vmt
+
+    class Mat(vmt.Material):
+        def __init__(self, shader, params=(), blocks=(), proxies=()):
+            super().__init__(shader, blocks=blocks, proxies=proxies)
+            if _ENGINE == "chx":
+                self._params = AssocDict()
+            for k, v in (params.items() if hasattr(params, "items") else params):
+                self[k] = v
+    return Mat
+
+
+def h_vmt(shader: str, pname: str, pval: str, bval: str, has_block: bool, has_proxy: bool,
+          n_sh: int, n_pn: int, n_pv: int, n_bv: int, npar: int = 4, low: int = 1) -> None:
+    """Material.export -> Material.parse: shader, parameters (names with their case, values, order), fallback blocks and proxies
+    equal; exporting the parsed material writes the same text."""
+    import srctools.tokenizer as tk
+    from srctools.keyvalues import Keyvalues
+    Mat = _material_class()
+    sh = _slot(shader, n_sh, "VertexLitGeneric")
+    pn = _slot(pname, n_pn, "$BaseTexture2")
+    pv = _slot(pval, n_pv, "dev/dev_measure wall01")
+    bv = _slot(bval, n_bv, "0.25")
+    if not (has_block or has_proxy):
+        assume(n_bv < 0)
+    # representable domain: the shader is written bare; names/values are quoted as needed but the format has no escapes
+    if n_sh >= 0:
+        assume(n_sh > 0)
+        _none_of(sh, '"\r')
+        assume(sh[0] != '\ufeff')      # a byte order mark at the start of the file is skipped by every reader
+    if n_pn >= 0:
+        _none_of(pn, '"\r')
+        if low:
+            assume(all([ord(ch) < 128 for ch in pn]))
+    if n_pv >= 0:
+        _none_of(pv, '"\r')
+    params = [("$basetexture", "models/props/box"), ("$envmaptint", "[1 .5 .25]"), ("%compilenodraw", ""), (pn, pv), ("$Alpha", "0.5")]
+    if npar < 4:
+        params = params[3:3 + npar]
+    blocks = [Keyvalues("VertexLitGeneric_DX8", [Keyvalues("$fallbackmaterial", bv), Keyvalues("inner", [Keyvalues("$x", "1")])])] if has_block else []
+    proxies = [Keyvalues("Sine", [Keyvalues("resultVar", "$alpha"), Keyvalues("sineperiod", bv)]), Keyvalues("Empty", [])] if has_proxy else []
+    # parameter names must be distinct modulo case (they are keys)
+    if n_pn >= 0:
+        for k, _v in params:
+            if k is not pn:
+                assume(pn.casefold() != k.casefold())
+    mat = Mat(sh, params, blocks, proxies)
+    check(len(mat) == len(params), "harness: parameter count")
+    sink = ChunkSink()
+    mat.export(sink)
+    try:
+        got = Mat.parse(sink.parts)
+    except Exception as e:
+        raise Fail(f"exported material does not parse: {type(e).__name__}: {e}")
+    _str_eq(got.shader, sh, "shader")
+    gp = got._params.values()
+    gp = list(gp)
+    check(len(gp) == len(params), "parameter count", len(gp), len(params))
+    for i, (k, v) in enumerate(params):
+        _str_eq(gp[i].name, k, f"parameter name {i}")
+        _str_eq(gp[i].value, v, f"parameter value {i}")
+        _str_eq(got[k], v, f"lookup of parameter {i}")
+    check(len(got.blocks) == len(blocks), "block count", len(got.blocks))
+    for i in range(len(blocks)):
+        _kv_eq(got.blocks[i], blocks[i], f"blocks[{i}]")
+    check(len(got.proxies) == len(proxies), "proxy count", len(got.proxies))
+    for i in range(len(proxies)):
+        _kv_eq(got.proxies[i], proxies[i], f"proxies[{i}]")
+    sink2 = ChunkSink()
+    got.export(sink2)
+    _same_pieces(sink.parts, sink2.parts, "vmt")
+
+
+def h_vmt_witness(shader: str, pname: str, pval: str, bval: str, has_block: bool, has_proxy: bool,
+                  n_sh: int, n_pn: int, n_pv: int, n_bv: int, npar: int = 4, low: int = 1) -> None:
+    h_vmt(shader, pname, pval, bval, has_block, has_proxy, n_sh, n_pn, n_pv, n_bv, npar, low)
     raise Fail("reached")
 
 
